@@ -39,6 +39,17 @@ chk("C13",
     "Coq proof (invariants by induction over all step sequences, ghost tokens) + regenerated guards tie + vm_compute replay of scheduler traces",
     "DESIGN.md §4 C13")
 
+chk("C11",
+    "Coq theorems over an executable model of FairMultiFIFOQueue with one function per critical section and a ghost history, for every operation sequence (operations are single critical sections, so sequences are exactly the interleavings at lock granularity; any number of threads, keys, items): conservation with multiplicities (every put item is queued, deferred, handed out, or discarded by join), never handed out more often than put, per-FIFO order (delivered = prefix of entered), all reported sizes equal the true numbers, idle iff nothing queued or running, join returns only when drained, and the only step enabling join's exit is a task_done whose own notify test holds. Tie: guards and key statements re-translated each run (T1); the real queue runs under the deterministic scheduler (random and enumerated schedules of producer/consumers/joiner), each run is linearised at its lock acquisitions and replayed in the model in Coq (T2).",
+    "Coq kernel+VM; translator fragment; abstraction of the level sets by in-progress counts; set-iteration choice taken from the implementation and checked admissible; scheduler and linearisation points; virtual clock",
+    "Coq proof (invariant with ghost history by induction over all operation sequences) + regenerated guards tie + vm_compute replay of scheduler traces",
+    "DESIGN.md §4 C11")
+chk("C12",
+    "Coq theorems on the same queue model: an exclusive item is its FIFO's only running item and locks it; nothing is handed out from a locked FIFO; an exclusive item starts only when nothing of its FIFO runs; the served FIFO has the fewest running items among eligible ones; a deferred item is promoted only after put-time + delay and stays deferred until then (exactly-once start = C11). On the Task model: a yield re-queues in the same FIFO with the same exclusivity; driving any well-formed generator body gives one re-queue per yield and a final invocation that runs a permutation of all registered clean-ups (exactly once, after the final step). Tie: T1 as C11 plus the re-queue call of Task.__call__; T2: queue traces as C11, and real Task objects with generated yield/clean-up scripts compared with the model in Coq.",
+    "as C11; Python generator semantics for Task bodies by correspondence",
+    "Coq proof (queue invariants; induction over task bodies, Permutation) + regenerated guards tie + vm_compute correspondence",
+    "DESIGN.md §4 C12")
+
 ALL = [f"C{i:02d}" for i in range(1, 21)]
 NA_REASON = "check not yet built in this revision (planned: see DESIGN.md §7); nothing is claimed for it"
 
